@@ -99,6 +99,67 @@ def discovery_model(prop, tier, seed, verdict, cov):
                                    steps=summ.get("steps", 0), flagged=summ.get("flagged", [])[:3], drifts=drifts, tlc_wall_s=ex["wall_s"])
 
 
+API_CONFIGS = {"C06": ["Calls", "Mixed", "Events"], "C02": ["Calls", "Mixed"], "C04": ["Events", "Mixed"]}
+API_TIERS = {"quick": dict(cap=2500, shards=4, suffix=""), "thorough": dict(cap=40000, shards=12, suffix="_thorough")}
+
+
+def api_model(prop, tier, seed, verdict, cov):
+    """BusApi.tla: every behaviour of the bounded API-level model (subscriptions, events, calls, aborts, service
+    destruction) performed through real clients and a real broker (api-replay); every step's observable outcome
+    validated by TLC against the specification (Trace_BusApi.tla)."""
+    from concurrent.futures import ThreadPoolExecutor
+    at = API_TIERS[tier]
+    wd = vlib.workdir(f"{prop}-{tier}-api")
+    chosen, parts = [], []
+    for nm in API_CONFIGS[prop]:
+        cfgfile = f"R_BusApi_{nm}{at['suffix']}.cfg"
+        if not os.path.exists(os.path.join(vlib.SPEC, cfgfile)):
+            cfgfile = f"R_BusApi_{nm}.cfg"
+        ex = vlib.tlc_behaviours("MC_BusApi.tla", cfgfile, os.path.join(wd, "tlc-behaviours.out"), workers=8, timeout=1800)
+        os.remove(os.path.join(wd, "tlc-behaviours.out"))
+        allb = ex["behaviours"]
+        stride = max(1, (len(allb) + at["cap"] - 1) // at["cap"])
+        part = allb[(seed - 1) % stride::stride]
+        chosen += part
+        parts.append(dict(config=cfgfile, behaviours=len(allb), states=ex["states"], complete=ex["complete"], replayed=len(part), stride=stride,
+                          wall_s=ex["wall_s"]))
+        cov["states"] = cov.get("states", 0) + ex["states"]
+        cov["transitions"] = cov.get("transitions", 0) + ex["states"]
+    bfile = os.path.join(wd, "behaviours.ndjson")
+    with open(bfile, "w") as f:
+        f.write("\n".join(chosen) + "\n")
+    trace = os.path.join(wd, "api-replay.ndjson")
+    summ = vlib.run_driver("api-replay", ["--in", bfile, "--out", trace, "--seed", seed], timeout=3000)
+    recs = vlib.read_ndjson(trace)
+    shards = vlib.split_runs(trace, at["shards"], wd, "api")
+    with ThreadPoolExecutor(max_workers=at["shards"]) as pool:
+        results = list(pool.map(lambda sh: (sh[1], vlib.tlc_trace("Trace_BusApi.tla", "Trace_BusApi.cfg", sh[0])), shards))
+    drifts = 0
+    for off, r in results:
+        if not r["consumed"]:
+            raise vlib.ToolError(f"api replay shard at {off} was not consumed")
+        for (idx, p, why) in r["violations"]:
+            gi = idx + off
+            a, b = vlib.run_of_record(recs, gi)
+            run_no = recs[a].get("run")
+            # C06 states the consistency of results itself ("a call returns the value computed for that very call")
+            mine = prop in p.split("+") or (prop == "C06" and p in ("C02", "C06"))
+            if mine:
+                verdict.violation(why[:400], dict(kind="api-replay", behaviour=json.loads(chosen[run_no]) if run_no is not None and run_no < len(chosen) else None,
+                                                  record_index=gi, trace=recs[a:b], violated_at=recs[gi - 1]))
+            else:
+                verdict.note(f"violation of {p} observed while checking {prop}: {why[:200]} (api-replay, record {gi})")
+        for (idx, why) in r["drifts"]:
+            drifts += 1
+            if drifts <= 5:
+                log(f"DRIFT property={prop} the real bus deviates from BusApi.tla: {why} (record {idx + off})")
+    for p, _ in shards:
+        os.remove(p)
+    cov["drift"] = cov.get("drift", 0) + drifts
+    cov["records"] = cov.get("records", 0) + len(recs)
+    cov["api_replay"] = dict(configs=parts, behaviours_replayed=len(chosen), steps=summ.get("steps", 0), flagged=summ.get("flagged", [])[:3], drifts=drifts)
+
+
 def run(prop, tier, seed):
     t0 = time.time()
     verdict = vlib.Verdict(prop)
@@ -122,6 +183,8 @@ def run(prop, tier, seed):
                                   dict(kind="tlc-mc", config=cfgfile, module=name + ".tla", output_tail=res["raw"][-6000:]))
     if prop == "C19":
         discovery_model(prop, tier, seed, verdict, cov)
+    if prop == "C06":
+        api_model(prop, tier, seed, verdict, cov)
     if prop == "C15":
         # the connection task's end-of-life protocol (spec/ConnTask.tla), the code as it is: everything but the
         # delivery of a queued Shutdown must hold; that clause is the known finding, re-observed in the model
@@ -135,6 +198,24 @@ def run(prop, tier, seed):
                 verdict.violation(f"ConnTask.tla as-is: {res['violation']}", dict(kind="tlc-mc", config=cfgfile, module="ConnTask.tla", output_tail=res["raw"][-3000:]))
             elif cfgfile == "MC_ConnTask_asis_rest.cfg" and not res["ok"]:
                 verdict.violation(f"ConnTask.tla design check {cfgfile}: {res['violation']}", dict(kind="tlc-mc", config=cfgfile, module="ConnTask.tla", output_tail=res["raw"][-3000:]))
+    if prop == "C15":
+        # enumerated scenarios around the moment a client stops (a pending reply dropped while the client drains, ...)
+        spath = os.path.join(wd, "stop-scenarios.ndjson")
+        depth = 6 if tier == "quick" else 40
+        ssum = vlib.run_driver("stop-scenarios", ["--out", spath, "--seed", seed, "--depth", depth, "--watchdog", 20], timeout=1200)
+        sres = vlib.tlc_trace("Trace_Client.tla", "Trace_Client.cfg", spath)
+        srecs = vlib.read_ndjson(spath)
+        cov["runs"] += ssum.get("scenarios", 0)
+        cov["records"] += len(srecs)
+        cov["stop_scenarios"] = dict(scenarios=ssum.get("scenarios", 0), hang=ssum.get("hang", False), records=len(srecs))
+        for (idx, p, why) in sres["violations"]:
+            a, b = vlib.run_of_record(srecs, idx)
+            payload = dict(kind="stop-scenarios", driver_args=["--seed", str(seed), "--depth", str(depth)], record_index=idx, run_header=srecs[a],
+                           trace=[r for r in srecs[a:b] if r.get("t") != "tap"][:200], violated_at=srecs[idx - 1])
+            if prop in p.split("+"):
+                verdict.violation(why, payload, site=json.dumps(srecs[a].get("scenario", {})))
+            else:
+                verdict.note(f"violation of {p} observed while checking {prop}: {why} (stop-scenarios, record {idx})")
     batches = cfg["batches"] if prop != "C15" else [("sweep", SWEEP[tier]["programs"], SWEEP[tier]["points"])]
     if prop == "C19":
         batches = BATCHES_C19[tier]
@@ -205,12 +286,15 @@ def run(prop, tier, seed):
         coverage.update(states=cov["states"], transitions=cov["transitions"], mc=cov["mc"])
     if cov.get("discovery_replay"):
         coverage["spec_to_impl_replay"] = cov["discovery_replay"]
+    if cov.get("api_replay"):
+        coverage["api_level_replay"] = cov["api_replay"]
     if prop == "C15":
         coverage["rule"] = ("one evaluation = one closed multi-client program re-run with one termination cause (k-th transport operation of the "
                             "victim fails / victim requests shutdown / broker shutdown / forced connection shutdown / connection task dropped) "
                             "injected at one point k of the victim's transport operations, the victim holding one value of every kind "
                             "(battery role) whose operations are started after the cause; distinct = distinct sequences of (role, operation, result)")
         coverage["causes_triggered"] = cov.get("triggered", 0)
+        coverage["stop_scenarios"] = cov.get("stop_scenarios", {})
         coverage["victim_transport_ops_per_program"] = cov.get("victim_ops", [])
     level = "fault_enumeration" if prop == "C15" else ("model_checking" if cov["states"] else "exploration")
     vlib.write_evidence(prop, tier, seed, level, coverage, time.time() - t0, verdict.violations,
@@ -244,6 +328,27 @@ def replay(prop, path, seed):
         res = vlib.tlc_mc(data["module"], data["config"], workers=8, timeout=3300)
         if not res["ok"]:
             verdict.violation(f"design check {data['config']}: {res['violation']}", dict(kind="tlc-mc", config=data["config"], module=data["module"]))
+    elif data.get("kind") == "stop-scenarios":
+        out = os.path.join(wd, "stop-scenarios.ndjson")
+        vlib.run_driver("stop-scenarios", list(data["driver_args"]) + ["--out", out, "--watchdog", 20], timeout=1200)
+        r = vlib.tlc_trace("Trace_Client.tla", "Trace_Client.cfg", out)
+        recs = vlib.read_ndjson(out)
+        for (idx, p, why) in r["violations"]:
+            if prop in p.split("+"):
+                a, b = vlib.run_of_record(recs, idx)
+                verdict.violation(why, dict(kind="stop-scenarios", driver_args=data["driver_args"], record_index=idx, trace=recs[a:b][:200]))
+        log(f"re-run of the scenarios on the current tree: {verdict.violations} violation(s) of {prop}")
+    elif data.get("kind") == "api-replay":
+        bfile = os.path.join(wd, "behaviour.ndjson")
+        with open(bfile, "w") as f:
+            f.write(json.dumps(data["behaviour"]) + "\n")
+        out = os.path.join(wd, "rerun.ndjson")
+        vlib.run_driver("api-replay", ["--in", bfile, "--out", out, "--seed", seed])
+        r = vlib.tlc_trace("Trace_BusApi.tla", "Trace_BusApi.cfg", out)
+        recs = vlib.read_ndjson(out)
+        for (idx, p, why) in r["violations"]:
+            verdict.violation(why[:400], dict(kind="api-replay", behaviour=data["behaviour"], record_index=idx, trace=recs, violated_at=recs[idx - 1]))
+        log(f"re-run of the stored behaviour on the current tree: {verdict.violations} violation(s)")
     elif data.get("kind") == "discovery-replay":
         bfile = os.path.join(wd, "behaviour.ndjson")
         with open(bfile, "w") as f:
